@@ -20,6 +20,7 @@ RULE = ('one evaluation = one seeded simulated run: 2-4 clients (threads sharing
         'values, interleaved at every SQL statement, file-system call and clock read (plus source lines in a share of '
         'shared-object runs) by a seeded scheduler (uniform / sticky / PCT); in a tenth of the runs one client runs evict(tag) / expire() / clear() over 101-150 prefilled rows while the others replace rows it has yet to reach (a bulk removal is a series of atomic per-row steps, each taking a row only while it still matches; rows nobody wrote to must all be gone); non-trivial = at least one context switch '
         'between clients; distinct = distinct SHA-256 of the full seam event log')
+RULE += ' ' + 'In one run in twelve the clients work on two counters that are removed and created again holding the same few small numbers (incr / pop / delete / set of 1 or 2).'
 ASSUMPTIONS = ['interleaving granularity is the seam call (and sampled source lines in shared-object runs); SQLite statements are atomic',
                'iteration is checked for per-key weak consistency, not as an atomic snapshot (generator protocol)']
 PROBES = ('lock_wait', 'stmt_blocked', 'tolerated_miss', 'file_backed_read', 'line_yield_runs', 'bulk_removal_races', 'iterations_over_pages')
